@@ -62,6 +62,10 @@ CLAIMED = {
   "guarded-by analysis (accept-edge conditions with operand roles) of the share-adding calls; sibling agreement of the two block-signing handlers; membership-test-before-insert on the recovery map; accept-edge analysis of round2",
   "On every path of round1.Update a block share reaches the recovery set only after the member key lookup succeeded, the signed data hash equalled this block's hash and the share verified; the beacon share only after VerifySig(key, preBH.Random, share); both block-signing handlers compare the signed hash with a local one; duplicates are refused; round2 hands the block to the chain only after both recovered signatures verified under the group key. Recovery correctness (C13) and network behaviour are not decided.",
   "Trusted: groupsig.VerifySig (C14); go/ssa. The fix: commit f4e6b61 (data-hash comparison in round1.Update) repaired finding F16; the rule re-checks it on every run."),
+ "C19": ("3/C19",
+  "inverse-operation table over the store operations of save/remove with entry-relative index arithmetic on the height key; guarded-by analysis of AddGroup; writer/reader key agreement on constant objects; who-may-write for count/lastGroup/groups",
+  "save and remove are inverses key family by key family (record, last pointer, height-index entry of exactly the added/removed group, count) and both maintain the in-memory count/last group; AddGroup saves only under the lock with parent present and predecessor == last; start-up reloads the keys save writes and height lookups use the same key derivation; only save/remove/init write the store, the count and the last pointer. Mid-operation crashes (no intent mark exists) are not decided.",
+  "Trusted: go/ssa. The fix: commit 3c26ddb (delete the removed group's height entry) repaired finding F18; the rule re-checks it on every run."),
 }
 
 NOT_YET = {}
